@@ -70,6 +70,9 @@ def assoc_marker(t, g):
         return False
 
 
+WIDE = [2**31 + 5, 7, 2**53 + 1, 2**40 + 3, 15, 2**62 + 9]
+
+
 def id_table(sizes, scheme):
     """flight ids per store per item for an id-assignment scheme (None = unidentified)."""
     n = sum(sizes)
@@ -87,6 +90,10 @@ def id_table(sizes, scheme):
                 row.append(10 * (n - g))
             elif scheme == 'interleaved':
                 row.append(10 * (j * k + s) + 5)
+            elif scheme == 'wide':
+                # identifiers over the whole int64 range, not monotone: beyond int32, not representable in
+                # float64 (odd numbers above 2**53), next to small ones
+                row.append(WIDE[g % len(WIDE)] + 16 * (g // len(WIDE)))
             else:
                 raise ValueError(scheme)
             g += 1
@@ -172,11 +179,15 @@ def observe_merged(out, model, assoc=None, where='merged'):
                 if t is None or sm.marker(t) != g:
                     vio.append(V('merged-get-wrong', f'{where}: get_flight({f}) gave {"nothing" if t is None else "#" + str(sm.marker(t))}, expected #{g}'))
                     break
-            try:
-                if ts.get_flight(3) is not None:
-                    vio.append(V('merged-get-absent', f'{where}: absent identifier returned a trajectory'))
-            except Exception as ex:  # noqa: BLE001
-                vio.append(V('merged-get-raised', f'{where}: get_flight(absent) raised {type(ex).__name__}: {ex}'))
+            present = {f for _, f in model}
+            for a in [3] + sorted({f - 1 for f in present} - present)[:12]:  # never added, incl. the neighbours of added ones
+                try:
+                    if ts.get_flight(a) is not None:
+                        vio.append(V('merged-get-absent', f'{where}: identifier {a} was never added but get_flight returned a trajectory'))
+                        break
+                except Exception as ex:  # noqa: BLE001
+                    vio.append(V('merged-get-raised', f'{where}: get_flight({a}) (never added) raised {type(ex).__name__}: {ex}'))
+                    break
     finally:
         try:
             ts.close()
